@@ -398,6 +398,33 @@ pub fn c11(a: &Args) {
                 evs
             });
         for v in evs { for e in v { out.emit(&e); } }
+        // every rule switched either way through both entry formats: the explicit choice must come out, and
+        // no other rule may move (exhaustive over rule names)
+        {
+            let curated_v = serde_json::to_value(LintGroupConfig::new_curated()).unwrap();
+            for name in &names {
+                for val in [true, false] {
+                    let ujson = json!({ name.as_str(): val });
+                    let ls = catch(|| {
+                        let cfg = crate::config::Config::from_lsp_config(json!({"harper-ls": {"linters": ujson}})).unwrap();
+                        let mut c = cfg.lint_config; c.fill_with_curated(); c
+                    });
+                    let wasm = catch(|| {
+                        let mut l = harper_wasm::Linter::new(harper_wasm::Dialect::American);
+                        l.set_lint_config_from_json(ujson.to_string()).unwrap();
+                        let mut c: LintGroupConfig = serde_json::from_str(&l.get_lint_config_as_json()).unwrap();
+                        c.fill_with_curated(); c
+                    });
+                    for (entry, r) in [("ls", ls), ("wasm", wasm)] {
+                        if let Ok(c) = r {
+                            let v = serde_json::to_value(&c).unwrap();
+                            let moved = names.iter().filter(|n| *n != name && v.get(n.as_str()) != curated_v.get(n.as_str())).count();
+                            out.emit(&json!({"ev": "Switch", "entry": entry, "rule": name, "value": val, "got": c.is_rule_enabled(name), "moved": moved}));
+                        }
+                    }
+                }
+            }
+        }
         // entry formats: harper-wasm JSON config and harper-ls settings, overlaid on curated defaults
         let dict = FstDictionary::curated();
         for i in 0..a.num("overlays", 60) as usize {
@@ -683,6 +710,83 @@ pub fn c14(a: &Args) {
                     _ => {}
                 }
             }
+            evs2
+        });
+        match res {
+            Ok(v) => evs.extend(v),
+            Err(p) => evs.push(json!({"ev": "Panic", "loc": p})),
+        }
+        evs
+    });
+    for v in evs { for e in v { out.emit(&e); } }
+    // merged ignore lists: two lists ignore different lints of one document; one is exported, its JSON
+    // arrays put into another order, and imported INTO the other (harper-wasm's import appends)
+    let nmerge = a.num("merge-sessions", 120) as usize;
+    let merge_docs: Vec<(String, u64)> = (0..nmerge).map(|_| {
+        let t = format!("{} {} {}", crate::inputs::compose(&corpus, &mut rng), rng.pick(&corpus[..]), rng.pick(&corpus[..]));
+        (t, rng.next())
+    }).collect();
+    fn shuffle_arrays(v: &mut Value, r: &mut Rng) {
+        match v {
+            Value::Array(a) => { for j in (1..a.len()).rev() { a.swap(j, r.below(j + 1)); } for x in a.iter_mut() { shuffle_arrays(x, r); } }
+            Value::Object(o) => { for (_, x) in o.iter_mut() { shuffle_arrays(x, r); } }
+            _ => {}
+        }
+    }
+    let evs = par_map(merge_docs.len(), a.num("threads", 12) as usize, |_| front::all_rules_group(Dialect::American), |lg, i| {
+        let (text, s) = &merge_docs[i];
+        let mut r = Rng::new(*s);
+        let mut evs = vec![json!({"ev": "Reset", "text": text})];
+        let res = catch(|| {
+            let mut evs2 = Vec::new();
+            let doc = make_doc(text, "plain");
+            let all = lg.lint(&doc);
+            let use_wasm = *s % 2 == 0;
+            let mut w1 = harper_wasm::Linter::new(harper_wasm::Dialect::American);
+            let mut w2 = harper_wasm::Linter::new(harper_wasm::Dialect::American);
+            let wkeys = |w: &mut harper_wasm::Linter| -> Vec<(usize, usize, String)> {
+                w.lint(text.clone(), harper_wasm::Language::Plain).iter().map(|x| (x.span().start, x.span().end, x.message())).collect()
+            };
+            let k0 = if use_wasm { Some(wkeys(&mut w2)) } else { None };
+            let entries = |all: &Vec<Lint>, k: &Option<Vec<(usize, usize, String)>>| -> Vec<Value> {
+                all.iter().map(|l| { let mut e = lint_entry(l, &doc);
+                    e["wv"] = json!(k.as_ref().map(|k| k.contains(&(l.span.start, l.span.end, l.message.clone()))).unwrap_or(false)); e }).collect()
+            };
+            evs2.push(json!({"ev": "Lints", "text": text, "all": entries(&all, &k0), "wasm": use_wasm, "visible": all.iter().map(lint_digest).collect::<Vec<_>>()}));
+            if all.len() < 2 { return evs2; }
+            let (mut l1, mut l2) = (IgnoredLints::new(), IgnoredLints::new());
+            let mut picked = 0;
+            for l in &all {
+                let side = r.below(3);      // 0: first list, 1: second list, 2: not ignored
+                if side == 2 || picked >= 8 { continue; }
+                picked += 1;
+                if side == 0 { l1.ignore_lint(l, &doc); } else { l2.ignore_lint(l, &doc); }
+                let mut wasm_done = false;
+                if use_wasm {
+                    let w = if side == 0 { &mut w1 } else { &mut w2 };
+                    if let Some(x) = w.lint(text.clone(), harper_wasm::Language::Plain).into_iter()
+                        .find(|x| x.span().start == l.span.start && x.span().end == l.span.end && x.message() == l.message) {
+                        w.ignore_lint(text.clone(), x);
+                        wasm_done = true;
+                    }
+                }
+                evs2.push(json!({"ev": "Ignored", "w": wasm_done, "pid": pid(l, &doc, false), "lpid": pid(l, &doc, true), "id": lint_digest(l),
+                    "wkey": format!("{}-{}", l.span.end - l.span.start, l.message)}));
+            }
+            // export list 1, reorder, import into list 2
+            let mut j: Value = serde_json::from_str(&serde_json::to_string(&l1).unwrap()).unwrap();
+            shuffle_arrays(&mut j, &mut r);
+            l2.append(serde_json::from_value(j).unwrap());
+            if use_wasm {
+                let mut j: Value = serde_json::from_str(&w1.export_ignored_lints()).unwrap();
+                shuffle_arrays(&mut j, &mut r);
+                w2.import_ignored_lints(j.to_string()).unwrap();
+            }
+            evs2.push(json!({"ev": "ExportImport", "n": picked}));
+            let mut vis = all.clone();
+            l2.remove_ignored(&mut vis, &doc);
+            let k1 = if use_wasm { Some(wkeys(&mut w2)) } else { None };
+            evs2.push(json!({"ev": "Lints", "text": text, "all": entries(&all, &k1), "wasm": use_wasm, "visible": vis.iter().map(lint_digest).collect::<Vec<_>>()}));
             evs2
         });
         match res {
